@@ -41,9 +41,9 @@ from props.moncommon import Mon, DEVS, WIDTHS, install_timer, tohex  # noqa: E40
 
 ID = 'C18'
 LEAN_MODULES = ['Py65.Props.C18', 'Py65.Proofs.MonIOGenEq', 'Py65.Props.C18g', 'Py65.Proofs.ConsoleGenEq',
-                'Py65.Props.C18gc']
+                'Py65.Props.C18gc', 'Py65.Props.C18h']
 NAMESPACES = ['Py65.Props.C18', 'Py65.Proofs.MonIOGenEq', 'Py65.Props.C18g', 'Py65.Proofs.ConsoleGenEq',
-              'Py65.Props.C18gc']
+              'Py65.Props.C18gc', 'Py65.Props.C18h']
 # library helpers (CPython behaviour modelled in lean/Py65/Model/*Rt*.lean ...) that the generated code of these
 # modules calls, derived by scanning the Lean sources (harness/rtscan.py); validated against CPython on every run
 import rtcheck  # noqa: E402
@@ -76,6 +76,11 @@ EXPECTED_THEOREMS = [
     'Py65.Proofs.ConsoleGenEq.getch_noblock_eq_modes', 'Py65.Proofs.ConsoleGenEq.getch_noblock_select_fault',
     'Py65.Props.C18gc.console_delivers_every_byte', 'Py65.Props.C18gc.console_idle',
     'Py65.Props.C18gc.getc_step_is_console', 'Py65.Props.C18gc.getc_delivers_every_byte',
+    # program level: the generated CPU run on the monitor's observed memory (C18g composed with C12 / C05h)
+    'Py65.Props.C18h.io_program', 'Py65.Props.C18h.io_run_is_replay', 'Py65.Props.C18h.io_consistent_of_safe',
+    'Py65.Props.C18h.io_step_memory', 'Py65.Props.C18h.io_instruction', 'Py65.Props.C18h.io_rmw_in_order',
+    'Py65.Props.C18h.io_instruction_consistent', 'Py65.Props.C18h.rmw_not_located',
+    'Py65.Props.C18h.io_program_partial',
 ]
 RULE = ('a case counts as non-trivial when its program made at least one access to an address congruent to I '
         'or O; distinct = distinct (device after the commands, class of I, class of O, command sequence kinds, '
@@ -133,8 +138,30 @@ TRUSTED = [
     'the glue MonIOGenEq.accessG / replayG (one device access on self._mpu.memory: the ObservableMemory model calls '
     'callbacks by identity; their answers and effects come from running the generated closures, answered from the '
     'state at the start of the access -- exact because an access of this memory calls at most one callback)',
-    'io_trace composes with C12 (each architectural load/store is one item access) to "once per access" for '
-    'programs; here the access log is observed on the real device through a recording proxy',
+    'PROGRAM level (Py65.Props.C18h on Py65.Proofs.IoProg / IoProgAcc / IoProgRmw / IoProgCoh): the GENERATED step() '
+    'of the three devices is run, instruction by instruction, on the plain memory "what a load would return now" '
+    '(viewG: the generated getc through the ObservableMemory model) and the access log of each instruction is '
+    'replayed through the generated observers (replayG, the object of io_trace); Consistent -- the observed memory '
+    'answers every load of the instruction exactly as the plain memory the CPU ran on -- is what makes this a step() '
+    'ON the observed memory.  io_program: for n consistent instructions the loads returned what the property says, '
+    'the output is the stores to O in program order once each, one byte consumed per load from I; '
+    'io_consistent_of_safe / io_instruction_consistent: Consistent holds when no load from I follows another access '
+    'to I inside ONE instruction and all addresses are physical (from the actual access list; or from '
+    'Spec.dataAccesses via C12, order-free, for an instruction not located at I; or, for read-modify-write '
+    'instructions, from the Spec list IN ORDER: io_rmw_in_order, so INC I is covered); io_instruction: per '
+    'instruction the accesses are C12\'s list, bytes consumed = its loads from I, characters printed = the stores '
+    'to O of Spec.dataAccesses; io_step_memory: the device model changes its memory only through LOGGED writes '
+    '(IoProgCoh: every generated handler, every opcode byte, every device), so its own memory after an instruction '
+    'is the plain replay of the instruction\'s log and agrees with the observed memory\'s cells off I; '
+    'io_program_partial: all of it for a well-formed machine with no hypothesis along the run but InstrOK (C05h keeps '
+    'the machine well-formed).  TRUSTED there: the generated device model is a function of a PLAIN memory that it '
+    'READS only through memGet (Machine.lean; the CPU translator emits nothing else -- the premise of C11 / C12; the '
+    'write side is proved, io_step_memory) -- running it on an effectful memory without the Consistent check needs a '
+    're-translation over a memory monad; the glue IoProg.ioStep / viewG (hand-written, 10 lines); the static '
+    'generator harness/gen_ioprog.py only writes proof text the kernel checks.  NOT covered (Consistent fails, '
+    'example located_at_I): an instruction that loads from I after another access to I (programs located at I, a '
+    'pointer fetched through I whose target is I, two aliases of I on the 65Org16)',
+    'here additionally the access log is observed on the real device through a recording proxy',
     'the Python oracle of this module',
 ]
 ASSUMPTIONS = [
@@ -147,6 +174,11 @@ ASSUMPTIONS = [
     'three devices on a StringIO -- for an unencodable one the generated putc provably prints `?`, for a value that '
     'is not a code point chr raises: putc_unencodable, putc_not_a_code_point); the constructor theorem is for '
     'command lines whose options are [-m NAME] [-i X] [-o Y] (the general loop is parse_loop_eq)',
+    'program level (C18h): every instruction of the run is Consistent -- guaranteed (io_instruction_consistent, '
+    'io_program_partial) for declared opcodes of a program not located at I whose instructions, one by one, contain no '
+    'load from I after another access to I (LDA/LDX/LDY/CMP/ADC/... I, STA/STX/STY O, read-modify-write of I or O '
+    'all qualify) and, on the 65Org16, touch physical addresses 0..$3FFFF only and have opcode cells < 256; '
+    'registers, cells and pending bytes inside the byte; the stream encodes every value of the byte',
 ]
 
 
